@@ -1008,7 +1008,6 @@ class EnhancedBD(BDWithExtIntBase):
                 k: metric_func_extra_args_dict[k]
                 for k in ('num_streams', )
             }
-            self._metric_func_extra_args = metric_func_extra_args_dict
 
         elif metric == 'fixed':
             if 'num_streams' not in metric_func_extra_args_dict.keys():
